@@ -118,13 +118,13 @@ func fieldConstants() []*loadVal {
 		"0": big.NewInt(0), "1": big.NewInt(1), "2": big.NewInt(2),
 		"p-1": new(big.Int).Sub(p, big.NewInt(1)), "p": p, "p+1": new(big.Int).Add(p, big.NewInt(1)),
 		"2^256-1": new(big.Int).Sub(two256, big.NewInt(1)), "2^255": new(big.Int).Lsh(big.NewInt(1), 255),
-		"p-2":         new(big.Int).Sub(p, big.NewInt(2)),
-		"2^32+977":    hexBig("1000003D1"), // 2^256 mod p
-		"2^32+976":    hexBig("1000003D0"),
+		"p-2":             new(big.Int).Sub(p, big.NewInt(2)),
+		"2^32+977":        hexBig("1000003D1"), // 2^256 mod p
+		"2^32+976":        hexBig("1000003D0"),
 		"alt-52bit-limbs": altLimbs(52), // alternating full/empty 52-bit limbs
 		"alt-26bit-limbs": altLimbs(26), // alternating full/empty 26-bit limbs
-		"Gx":          refsecp.Gx,
-		"beta":        hexBig("7AE96A2B657C07106E64479EAC3434E99CF0497512F58995C1396C28719501EE"),
+		"Gx":              refsecp.Gx,
+		"beta":            hexBig("7AE96A2B657C07106E64479EAC3434E99CF0497512F58995C1396C28719501EE"),
 	}
 	var names []string
 	for k := range c {
